@@ -91,7 +91,11 @@ def run(case, ctx):
 
     over_arg, kw = R.group_call_args(case, over, vspecs, recorder)
     ctx.ev()
+    lists_before = [(nm_, arg_, list(arg_)) for nm_, arg_ in [("over", over_arg)] + list(kw.items()) if isinstance(arg_, list)]
     res = t.aggregate(over=over_arg, **kw)
+    for nm_, arg_, was_ in lists_before:
+        if len(arg_) != len(was_) or any(x is not y for x, y in zip(arg_, was_)):
+            return ctx.fail("aggregate/argument-list-modified", f"the {nm_} list the caller passed was rewritten: {was_} -> {arg_}")
     if check_keys(res, "combined"):
         return
     if len(res) != len(groups):
